@@ -201,7 +201,7 @@ def measure(tree, ref: Ref, radii, steps, nodes, want_volume, soma_ok):
 
 
 def compare(ctx, case, A, B, refA: Ref, refB: Ref, new_of_old, s, radii_margin):
-    coordmax = max(float(np.abs(refA.X).max()) * max(s, 1.0), float(np.abs(refB.X).max()))
+    coordmax = max(float(np.abs(refA.X).max()) * s, float(np.abs(refB.X).max()))
     moved = bool(case["rotate"] or case["translate"] or s != 1 or case["by"] == "library")
     # a pure renumbering leaves every coordinate bit-identical: only summation order may differ
     # float32 rounding of the moved coordinates is relative to their magnitude (no absolute floor:
@@ -406,7 +406,7 @@ def _exec(ctx, case):
     rmax = float(refA.d.max())
     radiiA = np.sort(rng.uniform(0, rmax * 1.05, 8)) if rmax > 0 else np.array([1.0])
     case["_radii_B"] = (radiiA * s).tolist()
-    coordmax = max(float(np.abs(refA.X).max()) * max(s, 1.0), float(np.abs(refB.X).max()))
+    coordmax = max(float(np.abs(refA.X).max()) * s, float(np.abs(refB.X).max()))
     margin = 16 * 2e-7 * coordmax + 1e-5 * rmax * s
     nodes = list(range(n)) if n <= 25 else sorted(set(rng.integers(0, n, 15).tolist()))
     zero_seg = bool(((refA.seglen == 0) & (refA.pid >= 0)).any()
@@ -457,7 +457,8 @@ def run(ctx):
             elif m == 2:
                 case["scale"] = float(rng.choice([0.5, 2.0, 4.0, 0.25, 8.0, 0.0078125]))
             elif m == 3:
-                case["scale"] = float(rng.choice([1.7, 0.013, 0.3, 25.0, 100.0, 0.01, 1e-6, 3e-7]))
+                case["scale"] = float(rng.choice([1.7, 0.013, 0.3, 25.0, 100.0, 0.01, 1e-6, 3e-7,
+                                                  1e-9, 2.5e-10, 1e-12]))
             elif m == 4:
                 case["renumber"] = True
             elif m == 5:
